@@ -35,10 +35,14 @@ FUNCTIONS = {
             (RR, TR + 'testTearDown'), (RR, TR + 'startTest'), (RR, TR + 'stopTest'), (RR, TR + 'addSkip'), PROTOCOL],
     'C08': [('filter_c08', 'filter.build_filtering_func'), ('find_c14', 'find.find_suites'),
             ('select_c03', 'filter.Filter.global_setup'), ('select_c03', 'find.find_tests'), ('select_c03', 'find.find_tests@order'),
-            ('options_c08', 'options.get_options@filters')],
+            ('options_c08', 'options.get_options@filters'),
+            ('find_c09', 'find.tests_from_suite'),                      # where the --test filter is consulted, and on which name
+            ('runner_spawn', 'runner.spawn_layer_in_subprocess'),       # children decide with the parent's patterns: argv handed on unchanged
+            ('configure_c03', 'runner.Runner.configure')],
     'C12': [(RR, TR + 'startTest'), (RR, TR + 'addSkip'), PROTOCOL, RUN_TESTS, RUNNER_LOOP,
             ('process_c07', 'process.SubProcess.report'), ('report_c12', 'statistics.Statistics.report'),
-            ('report_c12', 'filter.Filter.report')],
+            ('report_c12', 'filter.Filter.report'),
+            ('runner_spawn', 'runner.spawn_layer_in_subprocess')],      # child -> parent transfer of count and names
     'C13': [(RR, TR + '__init__'), (RR, TR + '_setUpStdStreams'), (RR, TR + '_restoreStdStreams'),
             (RR, TR + 'startTest'), (RR, TR + 'stopTest')] + EVENTS + [PROTOCOL, RUN_TESTS]
            + [('formatter_c13', f) for f in ('formatter.OutputFormatter.print_std_streams', 'formatter.OutputFormatter.test_error',
@@ -73,16 +77,20 @@ FUNCTIONS = {
             ('runner_order', 'runner.Runner.ordered_layers'), RUN_TESTS, RUNNER_LOOP,
             ('runner_spawn', 'runner.spawn_layer_in_subprocess'), ('features_c18', 'runner.Runner.run'),
             ('find_c14', 'find.find_test_files'), ('runner_sched', 'runner.resume_tests'),
-            ('configure_c03', 'runner.Runner.configure')],
+            ('configure_c03', 'runner.Runner.configure'),
+            ('shuffle_c11', 'shuffle.Shuffle.__init__'), ('shuffle_c11', 'shuffle.Shuffle.global_setup')],   # same order in every mode
     'C06': [('runner_sched', 'runner.resume_tests'), ('runner_spawn', 'runner.spawn_layer_in_subprocess'),
             ('process_c07', 'process.SubProcess.report')],      # sentence 1 composes the lossless transfer (C07)
     'C14': [('find_c14', f) for f in ('find.strip_py_ext', 'find.contains_init_py', 'find.find_test_files_',
                                       'find.find_test_files', 'find.find_suites', 'find.test_dirs',
-                                      'options.get_options@prefix')],
+                                      'options.get_options@prefix')]
+           + [('options_c08', 'options.get_options@filters'), ('filter_c08', 'filter.build_filtering_func')],   # what --module accepts
+
     'C10': [('runner_order', f) for f in ('runner.gather_layers', 'runner.order_by_bases', 'runner.order_by_bases@unitfirst', 'runner.order_by_bases@complete',
                                           'runner.layer_sort_key', 'runner.layer_sort_key._gather',
                                           'runner.Runner.ordered_layers')]
-           + [('runner_sched', 'runner.resume_tests')],       # resumed layers are started in the order they are handed over
+           + [('runner_sched', 'runner.resume_tests'),        # resumed layers are started in the order they are handed over
+              RUNNER_LOOP],                                      # ... and handed over in the order ordered_layers gave
 }
 
 NATIVE = {p: p.lower() for p in ['C%02d' % i for i in range(1, 21)]}
